@@ -292,6 +292,33 @@ def check_numba_threads(ctx):
                 after = [x.tobytes() for x in (c["tt"], c["lt_tx"], c["lt_rx"], c["amp_tx"], c["amp_rx"], c["tx"], c["rx"])]
                 if before != after:
                     ctx.violate("delay_and_sum modified an input array", cj, {"kind": "inputs"})
+        # robust aggregations (complex128 only): many image points so that several threads are busy at once
+        for _ in range(2 * ctx.scale):
+            numel = int(rng.integers(3, 5))
+            tx, rx = fixtures.pairs(rng, numel, "fmc")
+            ns, npts = 24, 3000
+            tt = (rng.normal(size=(len(tx), ns)) + 1j * rng.normal(size=(len(tx), ns))).astype(np.complex128)
+            lt_tx = rng.uniform(0.3, ns * 0.25 / 2 - 0.5, size=(npts, numel))
+            lt_rx = rng.uniform(0.3, ns * 0.25 / 2 - 0.5, size=(npts, numel))
+            frame = fixtures.make_frame(tt, 0.0, 0.25, tx, rx)
+            fl_ = fixtures.make_focal_law(lt_tx, lt_rx)
+            for agg, interp in (("median", "nearest"), ("median", ("lanczos", 2)), (("huber", 1.0), ("lanczos", 2))):
+                cj = {"op": "delay_and_sum", "aggregation": str(agg), "interp": str(interp), "npts": npts, "numtimetraces": len(tx)}
+                ctx.case(("das-robust", tt.tobytes(), str(agg), str(interp)), True)
+                outs = {}
+                for nt in sorted({1, 2, int(rng.integers(3, maxt + 1)), maxt}):
+                    numba.set_num_threads(nt)
+                    try:
+                        outs[nt] = das.delay_and_sum(frame, fl_, fillvalue=0.3 + 0.1j, interpolation=interp, aggregation=agg)
+                    except Exception as e:
+                        outs[nt] = "raised " + type(e).__name__
+                    ctx.count("das-robust:threads")
+                ref = outs[1]
+                for nt, o in outs.items():
+                    same = (isinstance(o, str) and isinstance(ref, str)) or (not isinstance(o, str) and not isinstance(ref, str) and np.array_equal(o.view(np.uint8), ref.view(np.uint8)))
+                    if not same:
+                        ctx.violate(f"delay_and_sum(aggregation={agg}, interpolation={interp}) differs between 1 and {nt} numba threads", {**cj, "threads": nt}, {"kind": "numba_threads"})
+                        break
         # guvectorize(target=parallel) kernels
         for _ in range(10 * ctx.scale):
             n = int(rng.integers(2, 12))
